@@ -90,6 +90,9 @@ class _World:
         self.sync_tag = None
         self.connect_task = None
         self.updated = False
+        self.last_reply = None    # network time announced by the latest genuine answer to our sync request
+        self.log = []             # datagrams delivered so far: (raw, kind, inner token)
+        self.log_mark = 0         # ... of which this many before the last stop()
         self.ks = list(case.get("ks", [500]))
         self.ki = 0
         self.nrand = 0
@@ -222,6 +225,18 @@ class _World:
     def build(self, spec):
         k = spec["f"]
         local = self.timer.current_timer_value()
+        if k == "replay":
+            # a datagram recorded before the last stop(), octet for octet (the backbone key is static: its MAC still
+            # verifies; what protects the new connection is the timer value it carries)
+            if not self.log_mark:
+                return None
+            raw, kind, tok = self.log[spec["i"] % self.log_mark]
+            if kind == "notify":
+                tv, serial, tag, mac = int.from_bytes(raw[6:12], "big"), raw[12:18], raw[18:20], raw[20:36]
+                return raw, ("rxn", tv, int(serial == XKNX_SERIAL_NUMBER), int(tag == self.sync_tag),
+                             int(mac == R.timer_notify_mac(KEY, tv, serial, tag)))
+            u = R.unwrap(KEY, raw)
+            return raw, ("rxw", u["session_id"], u["seq"], int(u["mac_ok"]), tok)
         if k == "notify":
             tv = max(0, self._timer_of(spec, local))
             serial = XKNX_SERIAL_NUMBER if spec.get("own") else PEER_SERIAL
@@ -231,6 +246,9 @@ class _World:
                 mac = bytes((mac[0] ^ 1,)) + mac[1:]
             raw = R.timer_notify_frame(KEY, tv, serial, tag, mac)
             ok = int(mac == R.timer_notify_mac(KEY, tv, serial, tag))
+            self.log.append((raw, "notify", ""))
+            if serial == XKNX_SERIAL_NUMBER and tag == self.sync_tag and ok:
+                self.last_reply = tv
             return raw, ("rxn", tv, int(serial == XKNX_SERIAL_NUMBER), int(tag == self.sync_tag), ok)
         if k == "plain":
             raw = FR[spec["svc"]]
@@ -264,19 +282,26 @@ class _World:
             raw[7] ^= 1
         raw = bytes(raw)
         u = R.unwrap(KEY, raw)
+        self.log.append((raw, "wrap", tok))
         return raw, ("rxw", u["session_id"], u["seq"], int(u["mac_ok"]), tok)
 
     def _timer_of(self, spec, local):
         if "abs" in spec:
             return int(spec["abs"])
+        net = self.last_reply if self.last_reply is not None else local
         base = {"local": local, "sync": local - self.timer.sync_latency_tolerance_ms,
-                "lat": local - self.timer.latency_tolerance_ms}[spec.get("base", "local")]
+                "lat": local - self.timer.latency_tolerance_ms,
+                # relative to the network time announced by the latest answer to our synchronisation request
+                "net": net, "netlat": net - self.timer.latency_tolerance_ms}[spec.get("base", "local")]
         return base + int(spec.get("off", 0))
 
     def do_dgrams(self, specs):
         """Deliver the datagrams back to back (no loop iteration in between)."""
         for spec in specs:
-            raw, pre = self.build(spec)
+            b = self.build(spec)
+            if b is None:
+                continue
+            raw, pre = b
             self.fwd = None
             self.draws = []
             self.call = []
@@ -340,6 +365,7 @@ async def _main(loop, case):
             elif k == "stop":
                 w.group.stop()
                 is_open = False
+                w.log_mark = len(w.log)
                 w.trace.append(("stop", w.mono()))
             elif k == "sleep":
                 await asyncio.sleep(step["ms"] / 1000.0)
@@ -383,6 +409,8 @@ def oracle(case, out):
     st = None                  # last probe: (clockDiff, timekeeper, schedUpdate, authenticated)
     latency = case.get("latency", 1000)
     last_out = None            # timer of the last outgoing wrapper since authentication of this connection
+    synced = False             # a synchronisation of this object has COMPLETED (`sres` seen): only then is the timer
+                               # authenticated - judged from the trace, not from the implementation's own flag
     for o in tr:
         k = o[0]
         if k in ("badwrite", "cerr"):
@@ -424,8 +452,9 @@ def oracle(case, out):
                 return f"receive path raised {res[2:]} on a SecureWrapper"
             if res == "f":
                 why = []
-                if st is None or not st[3]:
-                    why.append("the timer is not synchronised yet")
+                if not synced:
+                    why.append("the timer is not synchronised yet (synchronize() has not completed: the local timer "
+                               "has not been moved to the network time)")
                 if mac != "1":
                     why.append("its MAC does not verify")
                 if sid != "0":
@@ -437,7 +466,7 @@ def oracle(case, out):
                 if why:
                     return "wrapped frame passed on although " + ", ".join(why)
             elif res == "d":
-                if (st is not None and st[3] and mac == "1" and sid == "0" and inner.startswith("s")
+                if (st is not None and synced and mac == "1" and sid == "0" and inner.startswith("s")
                         and int(inner[1:]) not in FORBIDDEN and int(tv) > t + st[0] - latency):
                     return f"authentic wrapped frame with timely timer {tv} (local {t + st[0]}) was dropped"
             else:
@@ -464,6 +493,7 @@ def oracle(case, out):
             last_out = None
             pending = ("conn", t, True)
         elif k == "sres":
+            synced = True
             last_out = None
             pending = ("sres", t, True)
         elif k == "stop":
@@ -597,7 +627,16 @@ def _gen_case(rng, big):
         if rng.random() < 0.3:
             steps.append({"k": "sleep", "ms": rng.choice([1, 100, 1500])})
         n = rng.choice([1, 1, 2, 2, 3])
-        steps.append({"k": "dgrams", "frames": [_notify(rng, True) for _ in range(n)] + ([_dgram(rng, True)] if rng.random() < 0.3 else [])})
+        if rng.random() < 0.35:
+            # the answer to our request and, in the same batch (synchronize() has not resumed yet), authentic wrappers whose
+            # timer lies around the unsynchronised local timer and around the network time the answer announces
+            delta = rng.choice([1800000, -1800000, 60000, -60000, 5000, 3600000])
+            ans = {"f": "notify", "mac": 1, "own": 1, "tagm": 1, "base": "local", "off": delta}
+            ws = [{"f": "wrap", "inner": "routing_ind", "base": rng.choice(["local", "local", "net", "netlat"]),
+                   "off": rng.choice([1, 0, -1, 2, 50, -50, 5000, -5000, 60000])} for _ in range(rng.randrange(1, 4))]
+            steps.append({"k": "dgrams", "frames": [ans] + ws})
+        else:
+            steps.append({"k": "dgrams", "frames": [_notify(rng, True) for _ in range(n)] + ([_dgram(rng, True)] if rng.random() < 0.3 else [])})
         steps.append({"k": "sleep", "ms": 20000 if rng.random() < 0.5 else rng.choice([0, 10, 5000])})
     n = 0
     budget = rng.randrange(5, 50 if big else 25)
@@ -618,7 +657,10 @@ def _gen_case(rng, big):
             steps.append({"k": "conn"})
             steps.append({"k": "dgrams", "frames": [_notify(rng, True) for _ in range(rng.choice([0, 1, 2]))] or [_dgram(rng)]})
             steps.append({"k": "sleep", "ms": rng.choice([0, 20000])})
-            n += 3
+            # datagrams recorded on the earlier connection of this object, played back into the new one
+            steps.append({"k": "dgrams", "frames": [{"f": "replay", "i": rng.randrange(64)} for _ in range(rng.randrange(0, 5))]
+                          or [_dgram(rng)]})
+            n += 4
         else:
             steps.append({"k": "stop"})
             n += 1
